@@ -15,11 +15,12 @@ import (
 
 type Variant struct {
 	Name    string `json:"name"`
-	Sched   string `json:"sched"`   // "end" | "every" | "random" | "reopen" | "drop"
-	Mode    string `json:"mode"`    // "det" | "nondet"
-	Workers int    `json:"workers"` // commit workers
-	Faults  int    `json:"faults"`  // max injected failing ledger calls per commit (each commit retried until success)
-	Warm    bool   `json:"warm"`    // run a throw-away workload first so that pooled objects are reused
+	Sched   string `json:"sched"`        // "end" | "every" | "random" | "reopen" | "drop"
+	Mode    string `json:"mode"`         // "det" | "nondet"
+	Workers int    `json:"workers"`      // commit workers
+	Faults  int    `json:"faults"`       // max injected failing ledger calls per commit (each commit retried until success)
+	Warm    bool   `json:"warm"`         // run a throw-away workload first so that pooled objects are reused
+	SkipRej bool   `json:"skiprejected"` // leave out the requests that a first pass saw rejected (C18)
 }
 
 type RunRec struct {
@@ -79,6 +80,24 @@ func (w *World) commitUntilSuccess(mode string, workers, faults int, rng *rand.R
 }
 
 func runVariant(kind string, cfg runCfg, table map[int][4]uint64, ops []Op, v Variant, t int, seed int64) RunRec {
+	if v.SkipRej {
+		// first pass: find the rejected requests; second pass (below) runs the history without them
+		var w0 *World
+		if kind == "map" {
+			w0 = newMapWorld(cfg.T, cfg.Limit, table)
+		} else {
+			w0 = newArrayWorld(cfg.T)
+		}
+		var kept []Op
+		for _, op := range ops {
+			_, res := w0.Exec(op)
+			if res.Class == "ok" {
+				kept = append(kept, op)
+			}
+		}
+		ops = kept
+		v.SkipRej = false
+	}
 	rng := rand.New(rand.NewSource(seed))
 	var w *World
 	root := "a"
